@@ -3,7 +3,7 @@ from pw_verif.props._machine import run_program_case, worker_init  # noqa: F401
 
 PROP = "C13"
 LEVEL = "exploration"
-BUDGET = {"quick": 480, "thorough": 6000}
+BUDGET = {"quick": 960, "thorough": 9000}
 MIN_PER_SHARD = 10
 ALL_KINDS = ["op", "comp", "comp", "struct", "struct", "newce", "newce", "newce", "kraus", "measure", "measure", "povm", "resize", "trace_out"]
 
@@ -32,11 +32,12 @@ def _merge_storm(draw):
     info = S.Info(spec, layout)
     steps = []
     n_handles = len(ces)
-    for _ in range(draw(st.integers(3, 9))):
+    for _ in range(draw(st.integers(4, 10))):
         r = draw(st.integers(0, 9))
         if r <= 5:
             pool = [f"ce{j}" for j in range(n_handles)] + units
-            m = list(dict.fromkeys(draw(st.lists(st.sampled_from(pool), min_size=1, max_size=3))))
+            k_ = draw(st.sampled_from([1, 1, 2, 3, 3, 3]))
+            m = list(dict.fromkeys(draw(st.lists(st.sampled_from(pool), min_size=k_, max_size=k_))))
             steps.append(dict(k="struct", call="new_ce", members=m))
             n_handles += 1
         elif r <= 7:
